@@ -625,7 +625,7 @@ func c07NoOtherPublishCalls(c *Ctx, rule string) {
 			continue // other packages' callbacks that happen to be called Publish
 		}
 		n++
-		if !globAny(allowed, name) {
+		if !c.allowedOwner(cs.fn, allowed) { // owners are closed under private helpers only they call
 			bad = append(bad, name+" at "+c.P.InstrPos(cs.in))
 		}
 	}
